@@ -148,7 +148,7 @@ def _hist_subsearches():
             if got.get('files') != want():
                 return {'request': {'op': 'export_history', 'steps': steps}, 'result': {'files': got.get('files'), 'results': got.get('results'), 'expected_files': want(), 'agree': False,
                         'note': 'the first export of a process starts the file afresh'}, 'kind': 'history'}
-    subs.append((('C04', 'C05', 'C06', 'C13'), stale))
+    subs.append((('C04', 'C05', 'C06', 'C13', 'C15'), stale))
 
     def deps():
         # types with dependencies: every order of the same calls must leave the same directory (C06), in particular
@@ -435,10 +435,15 @@ def run_named(spec):
             if thunk.__name__ == name:
                 return thunk()
         raise KeyError(name)
-    o = batch([{'op': name}])[0]
+    name, _, feats = name.partition('@')
+    feats = tuple(f for f in feats.split(',') if f)
+    o = batch([{'op': name}], feats)[0]
     for c in o.get('cases', []):
         if not c.get('agree', True):
-            return {'request': {'op': name}, 'result': c}
+            w = {'request': {'op': name}, 'result': c}
+            if feats:
+                w['features'] = list(feats)
+            return w
     return None
 
 
